@@ -166,9 +166,10 @@ inductive Op where
   /-- Policy.recoverFund of the NEO of a blocked account to the Treasury; `pre` = the preconditions outside the
       model (one year of block time since the blocking, "almost full" committee witness) hold -/
   | recoverNeo (acc treasury : Acct) (pre : Bool)
-  /-- a committee-gated call about a deployed contract without effect on the state modelled here
-      (setWhitelistFeeContract / removeWhitelistFeeContract: their own state is Model/Ledger/Whitelist.lean) -/
-  | committeeAbout (c : Acct)
+  /-- a call about a deployed contract without effect on the state modelled here: committee-gated
+      setWhitelistFeeContract / removeWhitelistFeeContract, or the contract's own `update` (their effect on the
+      whitelisted fees is Model/Ledger/Whitelist.lean) -/
+  | about (c : Acct) (needCommittee : Bool)
   | fault            -- a script that calls natives and then aborts
   | other            -- anything that does not touch the modelled state
 deriving DecidableEq, Repr
@@ -366,8 +367,8 @@ def execOp (w : TxView) (tx : Tx) : TxView × Res :=
           | some w1 => match incBalance w1 tr b.balance none with
             | none => (w, .fault)
             | some w2 => (w2, .haltTrue)
-  | .committeeAbout c =>
-    if !checkCommittee w tx then (w, .fault)
+  | .about c needCommittee =>
+    if needCommittee && !checkCommittee w tx then (w, .fault)
     else if !w.st.deployed.contains c then (w, .fault)
     else (w, .halt)
   | .fault => (w, .fault)
